@@ -24,7 +24,7 @@ ASSUMPTIONS = [
     'CacheDataset(immutable_warranty="copy") is not reachable through Dataset.cache() and is not part of the domain',
     'psutil.virtual_memory is patched to "plenty" so that the memory cache always caches (threshold crossings: C10)',
 ]
-N = {'quick': 500, 'thorough': 4000}
+N = {'quick': 500, 'thorough': 2500}
 STORAGES = ['new_pickle', 'new_copy', 'wu', 'cache', 'cache_eager', 'diskcache']
 READS = ['idx', 'neg', 'np', 'key', 'slice', 'iter', 'items', 'copy', 'copyf', 'view', 'iter_mut', 'items_mut',
          'prefetch_twice']
